@@ -1280,6 +1280,7 @@ func handleAction(c *webClient, a any) error {
 		d := c.Data()
 		clients := g.GetClients(nil)
 		go func(clients []group.Client) {
+			verifhook.At("rtpconn.changeBroadcast", id)
 			for _, cc := range clients {
 				cc.PushClient(
 					g.Name(), "change", id, user, perms, d,
@@ -1993,6 +1994,7 @@ func handleClientMessage(c *webClient, m clientMessage) error {
 			perms := c.Permissions()
 			data = c.Data()
 			go func(clients []group.Client) {
+				verifhook.At("rtpconn.changeBroadcast", id)
 				for _, cc := range clients {
 					cc.PushClient(
 						g.Name(), "change",
